@@ -13,7 +13,7 @@
     No bound on the number of orders, addresses or record names; every interleaving and every
     combination of faults is a history. *)
 From Coq Require Import ZArith.
-From CM Require Import Lib.Str Gen.Consts Safe.Model Challenge.Assoc Challenge.Model Solvers.Model Solvers.Proofs Solvers.E2E Solvers.E2EProofs.
+From CM Require Import Lib.Str Gen.Consts Safe.Model Challenge.Assoc Challenge.Model Solvers.Model Solvers.Proofs Solvers.E2E Solvers.E2EProofs Solvers.Tie.
 Open Scope Z_scope.
 
 (** the use count of an address is the number of pending challenges on it; the entry (and with
